@@ -74,6 +74,9 @@ def run(tier, out):
     a, n = prune_profile(tier, out, wd)
     tot_cases += a
     tot_events += n
+    # demand, demand-map and HTTP lanes (Trace_Demand, Trace_Http; the link protocol applies to every lane kind)
+    from checks import e_lanes2
+    e_lanes2.run_e(tier, out, os.path.join(wd, "lanes2"), prop="C04")
     k_writetask.run_k(tier, out, os.path.join(wd, "k"), prop="C04", only=None)
     out.add(traces_validated_against_impl=tot_cases, trace_events_validated=tot_events,
             rule="scripts are behaviours of AgentEnv.tla (TLC simulation, seeded); every recorded execution of the real agent+runtime is validated against Trace_LinkProtocol.tla",
@@ -83,6 +86,9 @@ def run(tier, out):
 
 def replay(path, out):
     obj = json.load(open(path))["replay"]
+    if obj.get("component") == "e_lanes2":
+        from checks import e_lanes2
+        return e_lanes2.replay(path, out)
     if str(obj.get("component", "")).startswith("WriteTask"):
         from checks import k_writetask
         return k_writetask.replay(path, out)
